@@ -288,6 +288,7 @@ int main(int argc, char** argv) {
       for (auto& f : fs) tids.push_back(vs_thread_create([](void* p) { (*(std::function<void()>*)p)(); }, &f));
       for (int t : tids) vs_thread_join(t);
       verif::yield = nullptr;
+      if (inProc) delete w;  // every client has finished; a leaked world per execution costs gigabytes under TSan in the thorough tier
       std::string j, ids;
       for (auto& t : obs)
         for (auto& v : t) {
